@@ -9,6 +9,8 @@ use crate::runner::{Check, Outcome, Tier, hash64};
 use crate::safe_print::{self, Style};
 use anthem::syntax_tree::asp::mini_gringo as asp;
 use anthem::syntax_tree::fol::sigma_0 as fol;
+use anthem::translating::classical_reduction::gamma::Gamma as _;
+use anthem::translating::formula_representation::tau_star::TauStar as _;
 use proptest::prelude::*;
 use serde_json::{Value, json};
 
@@ -176,7 +178,7 @@ impl Check for Determinism {
             0..=4,
         );
         prop_oneof![
-            1 => crate::generators::task::choices(170).prop_map(DetCase::External),
+            1 => crate::generators::task::choices(180).prop_map(DetCase::External),
             // up to 14 rules: a command that handled the formulas of a longer theory concurrently
             // would have to keep their order
             1 => (ga::program(&ga::AspCfg { max_rules: 14, ..c.clone() }), prop::sample::select(Transform::all())).prop_map(|(p, t)| DetCase::Translate(p, t)),
@@ -342,9 +344,21 @@ impl Check for Determinism {
                     );
                 }
                 if outputs[0].0 == Some(0) {
-                    // in-process result must agree (for the program-level translations)
-                    if matches!(t, Transform::TauStar | Transform::Natural | Transform::Mu) {
-                        if let Some(th) = t.apply(p) {
+                    // the in-process result must agree: the command does what the library does (gamma,
+                    // completion and simplify are applied by the commands to the printed tau* theory, by
+                    // the library to the tau* tree - the round trip in between is C15's business, so a
+                    // difference is only reported when the printed theory reads back as the same tree)
+                    let comparable = match t {
+                        Transform::TauStar | Transform::Natural | Transform::Mu => true,
+                        _ => {
+                            let tau = p.clone().tau_star();
+                            tau.to_string().parse::<fol::Theory>().map(|back| back == tau).unwrap_or(false)
+                        }
+                    };
+                    if comparable {
+                        // (the gamma command was given the tau* theory above)
+                        let expected = if matches!(t, Transform::Gamma) { Some(p.clone().tau_star().gamma()) } else { t.apply(p) };
+                        if let Some(th) = expected {
                             if th.to_string() != outputs[0].1 {
                                 return Outcome::fail(
                                     "cli-differs-from-library",
@@ -399,6 +413,36 @@ impl Check for Determinism {
                             safe_print::asp_program(b, &Style::plain())
                         ),
                     );
+                }
+                // the command line wires its options to the library: same files as the problems built in-process
+                if snapshots[0].0 == Some(0) {
+                    let has = |f: &str| flags.iter().any(|x| *x == f);
+                    let lib_flags = crate::generators::task::Flags {
+                        sequential: !has("--decomposition=independent"),
+                        direction: fol::Direction::Universal,
+                        simplify: !has("--no-simplify"),
+                        eq_break: !has("--no-eq-break"),
+                    };
+                    let mut lib: Vec<(String, String)> = ops::strong_problems(a, b, &lib_flags, has("--formula-representation=mu"))
+                        .iter()
+                        .map(|p| (format!("{}.p", p.name), p.text.clone()))
+                        .collect();
+                    lib.sort();
+                    // the in-process programs are the generated trees, the command reads their printed text:
+                    // compare only when the text reads back as the same programs (C14's business otherwise)
+                    let same = |p: &asp::Program| safe_print::asp_program(p, &Style::plain()).parse::<asp::Program>().map(|q| q == *p).unwrap_or(false);
+                    if same(a) && same(b) && lib != snapshots[0].1 {
+                        return Outcome::fail(
+                            "cli-differs-from-library",
+                            format!(
+                                "C18: the problem files written by `verify --equivalence strong` differ from the problems generated in-process with the same options\n  left: {}\n  right: {}\n  flags: {flags:?}\n  cli files: {:?}\n  library: {:?}",
+                                safe_print::asp_program(a, &Style::plain()),
+                                safe_print::asp_program(b, &Style::plain()),
+                                snapshots[0].1.iter().map(|x| &x.0).collect::<Vec<_>>(),
+                                lib.iter().map(|x| &x.0).collect::<Vec<_>>()
+                            ),
+                        );
+                    }
                 }
                 let total: usize = snapshots[0].1.iter().map(|(_, c)| c.len()).sum();
                 let key = hash64(&format!("{:?}", snapshots[0].1));
